@@ -34,20 +34,28 @@ const (
 
 // World fixes one genesis state, the node configuration and the constants recipes use.
 type World struct {
-	Name    string
-	Proto   int    // protocol version active from genesis (1 or 2)
-	Fee     uint64 // every fee parameter
-	Mint    uint64 // Config.InitialTokensPerBlock
-	BPH     uint64 // Config.BlocksPerHalvening
-	MinOrd  uint64 // MinimumOrderSize
-	MinValS uint64 // value the "min stake up" recipe sets for validators (V2 < it <= V1)
-	MinDelS uint64 // ... for delegates (V3 < it)
-	Faucet  int    // key index of the faucet account, -1 none
+	Name     string
+	Proto    int    // protocol version active from genesis (1 or 2)
+	Fee      uint64 // every fee parameter
+	Mint     uint64 // Config.InitialTokensPerBlock
+	BPH      uint64 // Config.BlocksPerHalvening
+	MinOrd   uint64 // MinimumOrderSize
+	MinValS  uint64 // value the "min stake up" recipe sets for validators (V2 < it <= V1)
+	MinDelS  uint64 // ... for delegates (V3 < it)
+	Faucet   int    // key index of the faucet account, -1 none
+	FreeSend bool   // the send fee parameter is 0
 	// Class is non-empty for a genesis no real network could have (violations found in it get a separate signature class).
 	Class    string
 	Accounts map[int]uint64
 	Vals     []env.ValSpec
 	Pools    []*fsm.Pool
+}
+
+func (w *World) sendFee() uint64 {
+	if w.FreeSend {
+		return 0
+	}
+	return w.Fee
 }
 
 func addrOf(k int) []byte { return env.Addr(env.BLS(k)).Bytes() }
@@ -87,12 +95,15 @@ func GetWorld(spec string) *World {
 		{Key: KV3, Stake: 500, Committees: []uint64{1, 2}, OutputKey: -1, Delegate: true, Compound: true},
 	}
 	switch name {
-	case "small", "faucet":
+	case "small", "faucet", "free":
 		w.Accounts = map[int]uint64{KV0: 1000, KV1: 1000, KV2: 1000, KV3: 1000, KA4: 5000, KA5: 3000, KA6: 2000, KA7: 1000}
 		w.Vals = smallVals
 		w.Pools = []*fsm.Pool{{Id: lib.DAOPoolID, Amount: 100}, lp(1000)}
 		if name == "faucet" {
 			w.Faucet = KA7
+		}
+		if name == "free" {
+			w.FreeSend = true // send fee 0 (all fees 0 would be an empty parameter object): a send touches only sender and recipient
 		}
 	case "dust":
 		// balances 0/1(/2), fee 1, mint 3 per block: every division has a remainder, accounts hit zero constantly
@@ -130,6 +141,7 @@ func (w *World) Genesis() *fsm.GenesisState {
 		v.NonSignSlashPercentage, v.DoubleSignSlashPercentage, v.MaxSlashPerCommittee = 5, 10, 15
 		v.MinimumOrderSize = w.MinOrd
 		f := p.Fee
+		defer func() { f.SendFee = w.sendFee() }()
 		f.SendFee, f.StakeFee, f.EditStakeFee, f.UnstakeFee, f.PauseFee, f.UnpauseFee = w.Fee, w.Fee, w.Fee, w.Fee, w.Fee, w.Fee
 		f.ChangeParameterFee, f.DaoTransferFee, f.CertificateResultsFee, f.SubsidyFee = w.Fee, w.Fee, 0, w.Fee
 		f.CreateOrderFee, f.EditOrderFee, f.DeleteOrderFee = w.Fee, w.Fee, w.Fee
